@@ -182,15 +182,25 @@ def run(ctx):
                 a, ma = programs.evaluate(T, spec, "scalar", "list", lambda *x: None)
             except programs.Degenerate:
                 continue
+            except programs.EvalError as e:
+                ctx.ev()
+                ck.root = spec
+                ck.bad("raised", e.spec, {"error": repr(e.exc)[:300]})
+                continue
             q = a.GetQuantity()
             for k in (1, 2, 3, 4, 5, 8):
                 ctx.ev()
-                want = q
-                for _j in range(k - 1):
-                    want = want * q
-                if (q**k) != want or dims.dimvec(T, dims.items_of(q**k)) != dims.times(ma.dim, k):
+                try:
+                    want = q
+                    for _j in range(k - 1):
+                        want = want * q
+                    if (q**k) != want or dims.dimvec(T, dims.items_of(q**k)) != dims.times(ma.dim, k):
+                        ck.root = ("**", spec, k)
+                        ck.bad("Quantity.__pow__", ck.root, {"got": repr(q**k), "want": repr(want)})
+                except Exception as e:
                     ck.root = ("**", spec, k)
-                    ck.bad("Quantity.__pow__", ck.root, {"got": repr(q**k), "want": repr(want)})
+                    ck.bad("raised", ck.root, {"error": repr(e)[:300], "what": "Quantity * Quantity / Quantity ** %d" % k})
+                    break
     ctx.inconclusive_if(probe.COUNTS["UnitDatabase.Multiply"] == 0 or probe.COUNTS["UnitDatabase.Divide"] == 0, "Multiply/Divide never reached")
 
 
